@@ -128,7 +128,61 @@ macro_rules! binop {
 binop!(Add, add, AddAssign, add_assign, B::Add);
 binop!(Sub, sub, SubAssign, sub_assign, B::Sub);
 binop!(Mul, mul, MulAssign, mul_assign, B::Mul);
-binop!(Div, div, DivAssign, div_assign, B::Div);
+impl Sym {
+    /// IEEE-faithful division: a symbolic denominator that may be zero forks the path; on the
+    /// zero branch the quotient is the IEEE value (+-inf / NaN) the native code would compute.
+    fn div_ieee(self, o: Sym) -> Sym {
+        if o.as_const().is_none() && !with_st(|st| st.arena.as_ground(o.0).is_some()) {
+            let z = Sym::konst(0.0);
+            if !with_st(|st| st.fork_div_zero) {
+                // no fork: the quotient is the IEEE value only if the denominator is forced to zero;
+                // otherwise the path continues under the recorded assumption "denominator != 0"
+                if eng::assume_nonzero(o.c_eq(z)) {
+                    return self.bin(B::Div, o);
+                }
+                if let Some(a) = self.as_const() {
+                    return Sym::konst(a / 0.0);
+                }
+                return Sym::konst(f64::NAN);
+            }
+            if eng::decide(o.c_eq(z)) {
+                if let Some(a) = self.as_const() {
+                    return Sym::konst(a / 0.0);
+                }
+                if eng::decide(z.c_lt(self)) {
+                    return Sym::konst(f64::INFINITY);
+                }
+                if eng::decide(self.c_lt(z)) {
+                    return Sym::konst(f64::NEG_INFINITY);
+                }
+                return Sym::konst(f64::NAN);
+            }
+        }
+        self.bin(B::Div, o)
+    }
+}
+impl Div for Sym {
+    type Output = Sym;
+    fn div(self, o: Sym) -> Sym {
+        self.div_ieee(o)
+    }
+}
+impl<'a> Div<&'a Sym> for Sym {
+    type Output = Sym;
+    fn div(self, o: &'a Sym) -> Sym {
+        self.div_ieee(*o)
+    }
+}
+impl DivAssign for Sym {
+    fn div_assign(&mut self, o: Sym) {
+        *self = self.div_ieee(o)
+    }
+}
+impl<'a> DivAssign<&'a Sym> for Sym {
+    fn div_assign(&mut self, o: &'a Sym) {
+        *self = self.div_ieee(*o)
+    }
+}
 binop!(Rem, rem, RemAssign, rem_assign, B::Rem);
 
 impl Neg for Sym {
@@ -503,6 +557,13 @@ pub trait Sc: RealField + FromPrimitive + Copy + 'static {
     fn prove_m(name: &str, c: Self::Bl, strong_neg: Self::Bl);
     fn reach(name: &str);
     fn control(name: &str);
+    /// symbolic run only: do not fork on "denominator == 0" (assume denominators non-zero unless forced)
+    fn no_div_zero_forks();
+    /// does the current path condition entail `c`?  (a solver query that is not recorded as an
+    /// obligation; used by harnesses to look values up in call logs.  Native: evaluates `c`.)
+    fn holds(c: Self::Bl) -> bool;
+    /// cheap numeric filter (never a verdict): do `a` and `b` agree at two pseudo-random points of the input box?
+    fn probably_equal(a: Self, b: Self) -> bool;
     /// concrete value if the scalar is a constant (always Some for f64)
     fn concrete(self) -> Option<f64>;
     /// identity of the term (node id for Sym; bits for f64) — used to recognise recorded values
@@ -595,6 +656,40 @@ impl Sc for Sym {
     fn control(name: &str) {
         eng::control(name)
     }
+    fn no_div_zero_forks() {
+        eng::set_fork_div_zero(false)
+    }
+    fn holds(c: u32) -> bool {
+        eng::entails(c)
+    }
+    fn probably_equal(a: Sym, b: Sym) -> bool {
+        if a.0 == b.0 {
+            return true;
+        }
+        with_st(|st| {
+            for salt in [0x9E3779B97F4A7C15u64, 0xD1B54A32D192ED03u64] {
+                let vars = &st.arena.vars;
+                let env = |v: u32| -> f64 {
+                    let vi = &vars[v as usize];
+                    let mut h = (v as u64 + 1).wrapping_mul(salt);
+                    h ^= h >> 29;
+                    h = h.wrapping_mul(0xBF58476D1CE4E5B9);
+                    h ^= h >> 32;
+                    let u = (h >> 11) as f64 / (1u64 << 53) as f64;
+                    let lo = vi.lo.unwrap_or(-1.0);
+                    let hi = vi.hi.unwrap_or(lo + 2.0);
+                    lo + (hi - lo) * (0.25 + 0.5 * u)
+                };
+                let mut cache = std::collections::HashMap::new();
+                let x = st.arena.eval(a.0, &env, &mut cache);
+                let y = st.arena.eval(b.0, &env, &mut cache);
+                if !((x - y).abs() <= 1e-9 * (1.0 + x.abs().max(y.abs()))) {
+                    return false;
+                }
+            }
+            true
+        })
+    }
     fn concrete(self) -> Option<f64> {
         with_st(|st| st.arena.as_ground(self.0))
     }
@@ -650,6 +745,13 @@ impl Sc for f64 {
     }
     fn reach(_name: &str) {}
     fn control(_name: &str) {}
+    fn no_div_zero_forks() {}
+    fn holds(c: bool) -> bool {
+        c
+    }
+    fn probably_equal(a: f64, b: f64) -> bool {
+        (a - b).abs() <= 1e-9 * (1.0 + a.abs().max(b.abs()))
+    }
     fn concrete(self) -> Option<f64> {
         Some(self)
     }
